@@ -176,6 +176,9 @@ func (e *Engine) builtin(st *State, b *ssa.Builtin, cc *ssa.CallCommon, args []V
 				return IntV{e.mapLen(st, a.Obj)}
 			}
 			if ok && a.Obj != nil && a.Obj.Kind == KChan {
+				if t, fin := e.chanFinal[a.Obj]; fin && st.Th == nil {
+					return IntV{c.ZExt(t, 64)}
+				}
 				ch := st.Heap[a.Obj].(*ChanContent)
 				return IntV{c.BV(uint64(len(ch.Buf)), 64)}
 			}
